@@ -6,7 +6,7 @@ from ..core import AnalysisError, norm, walk_no_nested
 
 META = {
     'design_ref': 'DESIGN.md §5 C07',
-    'technique': 'abstract interpretation (sa.heap with symbolic strings) of has_file/get_file on the three spellings of a member name, of DebFile.__init__ on all archive layouts with zero, one or two candidates per part, of tgz() on every candidate name and error source, of md5sums()/scripts()/debcontrol() on symbolic lines; two-instance scenario for state shared between parts; layouts with a duplicated member name; position of the member when tarfile.open receives it; newline mode of the text wrapper; six member orders; ownership rule: the member object a part reads through is not one the archive hands out (one cursor per holder); format-arity rule for the messages of refusals; frame rule over the content queries (no remembered answer object, no memoising decorator)',
+    'technique': 'abstract interpretation (sa.heap with symbolic strings) of has_file/get_file on the three spellings of a member name, of DebFile.__init__ on all archive layouts with zero, one or two candidates per part, of tgz() on every candidate name and error source, of md5sums()/scripts()/debcontrol() on symbolic lines; two-instance scenario for state shared between parts; layouts with a duplicated member name; position of the member when tarfile.open receives it; newline mode of the text wrapper; six member orders; ownership rule: the member object a part reads through is not one the archive hands out (one cursor per holder); format-arity rule for the messages of refusals; frame rule over the content queries (no remembered answer object, no memoising decorator); the archive walk on a model archive with an empty member and repeated names (the member set the part checks see)',
     'level_text': 'Static decision: every query name passes through a normaliser that strips exactly one leading "./" or "/" before the '
                   'single lookup spelling "./name"; the part for control/data is the unique member among all compressed and uncompressed '
                   'candidates or DebError; every candidate name is accepted by the extension test; all structural failures raise DebError; '
